@@ -6,6 +6,7 @@ package main
 // pipe used to complete that table, and the implementation side of every operation.
 
 import (
+	"time"
 	"bufio"
 	"bytes"
 	"crypto/ed25519"
@@ -817,7 +818,31 @@ func init() {
 	}))
 	// [ver; universe; sets; auth; rejected; table; evjson]
 	RegisterImpl("C10.resolve_new", wrap(func(ver string, c *srCase, a [][]byte) []byte {
-		return srResult(gmsl.ResolveConflictsNew(gmsl.RoomVersion(ver), c.sets(a[2]), c.list(a[3]), srUserIDForSender, srRejectedFn(a[4])))
+		// a watchdog: "returns the state the algorithm defines" presupposes returning (F81)
+		done := make(chan []byte, 1)
+		go func() {
+			defer func() {
+				if r := recover(); r != nil {
+					done <- []byte(fmt.Sprintf("PANIC: %v", r))
+				}
+			}()
+			done <- srResult(gmsl.ResolveConflictsNew(gmsl.RoomVersion(ver), c.sets(a[2]), c.list(a[3]), srUserIDForSender, srRejectedFn(a[4])))
+		}()
+		select {
+		case out := <-done:
+			return out
+		case <-time.After(15 * time.Second):
+			return []byte("TIMEOUT: no result within 15 s")
+		}
+	}))
+	// [ver; universe; conflicted; unconflicted; auth; rejected; table; evjson]: the deprecated driver
+	// called directly with conflicted and unconflicted as the two parts of ONE list (F79)
+	RegisterImpl("C10.resolve_v2_direct", wrap(func(ver string, c *srCase, a [][]byte) []byte {
+		cf, uc := c.list(a[2]), c.list(a[3])
+		all := make([]gmsl.PDU, 0, len(cf)+len(uc)+8)
+		all = append(append(all, cf...), uc...)
+		res := gmsl.ResolveStateConflictsV2(all[:len(cf)], all[len(cf):], c.list(a[4]), srUserIDForSender, srRejectedFn(a[5]))
+		return []byte(srSortedCSV(res))
 	}))
 	// [ver; universe; events; auth; rejected; table; evjson]
 	RegisterImpl("C10.resolve_old", wrap(func(ver string, c *srCase, a [][]byte) []byte {
@@ -921,6 +946,30 @@ func srGenInput(c *Ctx, i int, wellFormed bool) *srInput {
 			switch e.Type() {
 			case spec.MRoomCreate, spec.MRoomPowerLevels, spec.MRoomJoinRules, spec.MRoomMember, spec.MRoomThirdPartyInvite:
 				in.auth = append(in.auth, e)
+			}
+		}
+	}
+	if srAlgo(ver) == gmsl.StateResV1 && rng.Intn(3) == 0 {
+		// F78: also one (any) event of the history for every conflicted auth key
+		cf, _ := srOldSplit(all)
+		have := map[[2]string]bool{}
+		for _, e := range cf {
+			k := [2]string{e.Type(), *e.StateKey()}
+			if have[k] {
+				continue
+			}
+			have[k] = true
+			switch e.Type() {
+			case spec.MRoomPowerLevels, spec.MRoomJoinRules, spec.MRoomMember, spec.MRoomThirdPartyInvite:
+				var pool []gmsl.PDU
+				for _, x := range h.evs {
+					if x.StateKey() != nil && x.Type() == k[0] && *x.StateKey() == k[1] {
+						pool = append(pool, x)
+					}
+				}
+				if len(pool) > 0 {
+					in.auth = append(in.auth, pool[rng.Intn(len(pool))])
+				}
 			}
 		}
 	}
@@ -1051,6 +1100,9 @@ func srDirectedV1(rng *rand.Rand) *srInput {
 		set2 = append(set2, topic2)
 	}
 	in := &srInput{h: h, ver: "1", sets: [][]gmsl.PDU{set1, set2}}
+	// F78: an auth event under a key that is itself conflicted (the actor's first join, which is
+	// none of the candidates): one event per key, as the resolver documents
+	extraAuth := actorIn != actorJoin && rng.Intn(4) != 0
 	if rng.Intn(3) == 0 { // a third set agreeing with one of them
 		in.sets = append(in.sets, append([]gmsl.PDU{}, [][]gmsl.PDU{set1, set2}[rng.Intn(2)]...))
 	}
@@ -1064,6 +1116,9 @@ func srDirectedV1(rng *rand.Rand) *srInput {
 		case spec.MRoomCreate, spec.MRoomPowerLevels, spec.MRoomJoinRules, spec.MRoomMember, spec.MRoomThirdPartyInvite:
 			in.auth = append(in.auth, e)
 		}
+	}
+	if extraAuth {
+		in.auth = append(in.auth, actorJoin)
 	}
 	in.universe = srUniverse(h.evs)
 	in.evjson = srEvJSON(h.evs)
@@ -1405,6 +1460,177 @@ func srDirectedV2Overwrite(rng *rand.Rand, ver string, key string) *srInput {
 	return srFinishInput(h, ver, [][]gmsl.PDU{set1, set2}, false)
 }
 
+// common start of a directed v2 / v2.1 history: create, alice joins; returns helpers
+type srRoom struct {
+	h      *srHist
+	m      *srEmitter
+	alice  string
+	create gmsl.PDU
+	aj     gmsl.PDU
+}
+
+func srStartRoom(rng *rand.Rand, ver string, nusers int) *srRoom {
+	h := srNewHist(ver)
+	for i := 0; i < nusers; i++ {
+		h.users = append(h.users, fmt.Sprintf("@u%d:%s", i, srOrigin))
+	}
+	m := &srEmitter{h: h, rng: rng, ts: int64(1000 + rng.Intn(500))}
+	a := h.users[0]
+	cc := fmt.Sprintf(`{"room_version":%q`, ver)
+	if !h.v12 {
+		cc += fmt.Sprintf(`,"creator":%q`, a)
+	}
+	create := m.emit(spec.MRoomCreate, strp(""), a, cc+"}", nil)
+	if h.v12 {
+		h.roomID = "!" + create.EventID()[1:]
+	}
+	r := &srRoom{h: h, m: m, alice: a, create: create}
+	r.aj = m.emit(spec.MRoomMember, strp(a), a, `{"membership":"join"}`, r.au(create))
+	return r
+}
+
+// auth event IDs (v12: the create event is never listed)
+func (r *srRoom) au(evs ...gmsl.PDU) []string {
+	var ids []string
+	for _, e := range evs {
+		if r.h.v12 && e.Type() == spec.MRoomCreate {
+			continue
+		}
+		ids = append(ids, e.EventID())
+	}
+	return ids
+}
+
+// power levels content; v12: the creator must not be listed
+func (r *srRoom) pl(levels map[string]int, extra string) string {
+	var us []string
+	for _, x := range r.h.users {
+		if l, ok := levels[x]; ok && !(r.h.v12 && x == r.alice) {
+			us = append(us, fmt.Sprintf("%q:%d", x, l))
+		}
+	}
+	return fmt.Sprintf(`{"users":{%s},"users_default":0,"state_default":50,"events_default":0,"ban":50,"kick":50,"invite":0,"redact":50%s}`, strings.Join(us, ","), extra)
+}
+
+// F76: an honest fork in which a power-levels event is BOTH conflicted and in the auth difference:
+// trunk PL0; fork X: PL1 (alice promotes u1), PL2 (u1 promotes u2), ..., T (the last promoted user
+// sets the topic); fork Y: N (alice sets the name). The power events form a chain in the auth DAG,
+// so their order is PL0, PL1, ..., PLn whatever the timestamps and senders' levels are.
+func srDirectedV2PromoteChain(rng *rand.Rand, ver string, n int) *srInput {
+	r := srStartRoom(rng, ver, n+1)
+	m, u := r.m, r.h.users
+	levels := map[string]int{r.alice: 100}
+	pl0 := m.emit(spec.MRoomPowerLevels, strp(""), r.alice, r.pl(levels, ""), r.au(r.create, r.aj))
+	jr := m.emit(spec.MRoomJoinRules, strp(""), r.alice, `{"join_rule":"public"}`, r.au(r.create, pl0, r.aj))
+	joins := map[string]gmsl.PDU{r.alice: r.aj}
+	for _, x := range u[1:] {
+		joins[x] = m.emit(spec.MRoomMember, strp(x), x, `{"membership":"join"}`, r.au(r.create, pl0, jr))
+	}
+	fork := m.last
+	prevPL, sender := pl0, r.alice
+	for k := 1; k <= n; k++ {
+		levels[u[k]] = 50
+		prevPL = m.emit(spec.MRoomPowerLevels, strp(""), sender, r.pl(levels, ""), r.au(r.create, prevPL, joins[sender]))
+		sender = u[k]
+	}
+	t := m.emit("m.room.topic", strp(""), sender, `{"topic":"t"}`, r.au(r.create, prevPL, joins[sender]))
+	m.last = fork
+	nm := m.emit("m.room.name", strp(""), r.alice, `{"name":"n"}`, r.au(r.create, pl0, r.aj))
+	common := []gmsl.PDU{r.create, jr}
+	for _, x := range u {
+		common = append(common, joins[x])
+	}
+	setX := append(append([]gmsl.PDU{}, common...), prevPL, t)
+	setY := append(append([]gmsl.PDU{}, common...), pl0, nm)
+	in := srFinishInput(r.h, ver, [][]gmsl.PDU{setX, setY}, false)
+	in.auth = append([]gmsl.PDU{}, r.h.evs...)
+	return in
+}
+
+// F77: v2.1 starts from the empty state, so the events of the UNCONFLICTED state that lie in the
+// conflicted subgraph have to be replayed: trunk PL1, PL2, PL3 (only PL3 gives bob 50); fork X:
+// T (bob sets the topic); fork Y: MA2 (alice changes her display name). PL3 is in both state sets.
+func srDirectedV21Subgraph(rng *rand.Rand, ver string) *srInput {
+	r := srStartRoom(rng, ver, 2)
+	m, bob := r.m, r.h.users[1]
+	pl1 := m.emit(spec.MRoomPowerLevels, strp(""), r.alice, r.pl(map[string]int{r.alice: 100}, ""), r.au(r.create, r.aj))
+	jr := m.emit(spec.MRoomJoinRules, strp(""), r.alice, `{"join_rule":"public"}`, r.au(r.create, pl1, r.aj))
+	mb := m.emit(spec.MRoomMember, strp(bob), bob, `{"membership":"join"}`, r.au(r.create, pl1, jr))
+	pl2 := m.emit(spec.MRoomPowerLevels, strp(""), r.alice, r.pl(map[string]int{r.alice: 100, bob: 25}, ""), r.au(r.create, pl1, r.aj))
+	pl3 := m.emit(spec.MRoomPowerLevels, strp(""), r.alice, r.pl(map[string]int{r.alice: 100, bob: 50}, ""), r.au(r.create, pl2, r.aj))
+	fork := m.last
+	t := m.emit("m.room.topic", strp(""), bob, `{"topic":"t"}`, r.au(r.create, pl3, mb))
+	m.last = fork
+	ma2 := m.emit(spec.MRoomMember, strp(r.alice), r.alice, `{"displayname":"a2","membership":"join"}`, r.au(r.create, pl3, jr, r.aj))
+	setX := []gmsl.PDU{r.create, r.aj, pl3, jr, mb, t}
+	setY := []gmsl.PDU{r.create, ma2, pl3, jr, mb}
+	in := srFinishInput(r.h, ver, [][]gmsl.PDU{setX, setY}, false)
+	in.auth = append([]gmsl.PDU{}, r.h.evs...)
+	return in
+}
+
+// F81: a long honest history: n rounds of alice changing her display name and the power levels
+// (every event cites its predecessors), then a fork T | N. The number of auth PATHS from T to
+// the create event doubles with every round; the defined result is the union of the two sets.
+func srDirectedV21LongChain(rng *rand.Rand, ver string, n int) *srInput {
+	r := srStartRoom(rng, ver, 1)
+	m := r.m
+	p := m.emit(spec.MRoomPowerLevels, strp(""), r.alice, r.pl(map[string]int{r.alice: 100}, ""), r.au(r.create, r.aj))
+	jr := m.emit(spec.MRoomJoinRules, strp(""), r.alice, `{"join_rule":"public"}`, r.au(r.create, p, r.aj))
+	mm := r.aj
+	for i := 1; i <= n; i++ {
+		mm = m.emit(spec.MRoomMember, strp(r.alice), r.alice, fmt.Sprintf(`{"displayname":"a%d","membership":"join"}`, i), r.au(r.create, mm, p, jr))
+		p = m.emit(spec.MRoomPowerLevels, strp(""), r.alice, r.pl(map[string]int{r.alice: 100}, fmt.Sprintf(`,"events":{"x%d":1}`, i)), r.au(r.create, mm, p))
+	}
+	fork := m.last
+	t := m.emit("m.room.topic", strp(""), r.alice, `{"topic":"t"}`, r.au(r.create, mm, p))
+	m.last = fork
+	nm := m.emit("m.room.name", strp(""), r.alice, `{"name":"n"}`, r.au(r.create, mm, p))
+	setX := []gmsl.PDU{r.create, mm, p, jr, t}
+	setY := []gmsl.PDU{r.create, mm, p, jr, nm}
+	in := srFinishInput(r.h, ver, [][]gmsl.PDU{setX, setY}, false)
+	in.auth = append([]gmsl.PDU{}, r.h.evs...)
+	return in
+}
+
+// the round-7 families through the current entry point (and the deprecated one) in a few orders
+func srDirectedRound7Cases(c *Ctx) {
+	var ins []*srInput
+	var descs []string
+	for _, ver := range []string{"2", "6", "11", "12"} {
+		for n := 2; n <= 3; n++ {
+			ins = append(ins, srDirectedV2PromoteChain(c.Rng, ver, n))
+			descs = append(descs, fmt.Sprintf("directed v%s promote chain of %d: a power event both conflicted and in the auth difference", ver, n))
+		}
+	}
+	for _, ver := range []string{"12", "org.matrix.hydra.11", "11"} {
+		ins = append(ins, srDirectedV21Subgraph(c.Rng, ver))
+		descs = append(descs, fmt.Sprintf("directed v%s history: unconflicted power levels inside the conflicted subgraph", ver))
+	}
+	ins = append(ins, srDirectedV21LongChain(c.Rng, "12", c.Scale(15, 24)))
+	descs = append(descs, "directed v12 long chain: the number of auth paths is exponential")
+	for i, in := range ins {
+		cs := srParse(in.ver, in.evjson)
+		c.Count("directed_round7")
+		var table, otable []byte
+		for p := 0; p < 2; p++ {
+			psets, pauth := srRearranged(c.Rng, in)
+			args := [][]byte{[]byte(in.ver), in.universe, srSetsStr(psets), srCSV(pauth), nil, table, in.evjson}
+			table = srFillTable(cs, "C10.resolve_new", args, 5)
+			args[5] = table
+			c.Run("C10.resolve_new", args, "C10.resolve_new", "C10.prop.v2", descs[i]+fmt.Sprintf(" order %d", p))
+			var all []gmsl.PDU
+			for _, s := range psets {
+				all = append(all, s...)
+			}
+			oargs := [][]byte{[]byte(in.ver), in.universe, srCSV(all), srCSV(pauth), nil, otable, in.evjson}
+			otable = srFillTable(cs, "C10.resolve_old", oargs, 5)
+			oargs[5] = otable
+			c.Run("C10.resolve_old", oargs, "C10.resolve_old", "", descs[i]+fmt.Sprintf(" order %d", p))
+		}
+	}
+}
+
 // the directed v2 family through both entry points in a few orders
 func srDirectedV2Cases(c *Ctx) {
 	for _, ver := range []string{"2", "6", "10", "11", "12"} {
@@ -1419,7 +1645,7 @@ func srDirectedV2Cases(c *Ctx) {
 				args := [][]byte{[]byte(in.ver), in.universe, srSetsStr(psets), srCSV(pauth), nil, table, in.evjson}
 				table = srFillTable(cs, "C10.resolve_new", args, 5)
 				args[5] = table
-				c.Run("C10.resolve_new", args, "C10.resolve_new", "C10.prop.unconflicted_kept", desc+fmt.Sprintf(" order %d", p))
+				c.Run("C10.resolve_new", args, "C10.resolve_new", "C10.prop.v2", desc+fmt.Sprintf(" order %d", p))
 				var all []gmsl.PDU
 				for _, s := range psets {
 					all = append(all, s...)
@@ -1485,6 +1711,7 @@ func propC10(c *Ctx) {
 	srSilence()
 	srDirectedV1ChainCases(c)
 	srDirectedV2Cases(c)
+	srDirectedRound7Cases(c)
 	srDirectedV1Cases(c)
 	nh := c.Scale(160, 2500)
 	for i := 0; i < nh; i++ {
@@ -1492,6 +1719,19 @@ func propC10(c *Ctx) {
 		ver := in.ver
 		cs := srParse(ver, in.evjson)
 		algo := srAlgo(ver)
+		if i%5 == 0 && algo != gmsl.StateResV1 && len(in.sets[0]) > 0 {
+			// F80: an event named twice in every state set that has it
+			e := in.sets[0][c.Rng.Intn(len(in.sets[0]))]
+			for j := range in.sets {
+				for _, x := range in.sets[j] {
+					if x.EventID() == e.EventID() {
+						in.sets[j] = append(in.sets[j], e)
+						break
+					}
+				}
+			}
+			c.Count("sets_with_repeated_entries")
+		}
 		c.Count("version=" + ver)
 		c.Count(fmt.Sprintf("sets=%d", len(in.sets)))
 		desc := fmt.Sprintf("history %d: v%s, %d events, %d sets, %d auth", i, ver, len(in.h.evs), len(in.sets), len(in.auth))
@@ -1508,7 +1748,7 @@ func propC10(c *Ctx) {
 		// current entry point
 		args := in.resolveNewArgs()
 		args[5] = srFillTable(cs, "C10.resolve_new", args, 5)
-		v1op, v1oldop := "C10.prop.unconflicted_kept", ""
+		v1op, v1oldop := "C10.prop.v2", ""
 		if algo == gmsl.StateResV1 {
 			v1op, v1oldop = "C10.prop.v1", "C10.prop.v1_old"
 		}
@@ -1550,7 +1790,13 @@ func propC10(c *Ctx) {
 				}
 			}
 			// deprecated auth difference on the deprecated split
-			dc, _ := srOldSplit(all)
+			dc, du := srOldSplit(all)
+			if i%2 == 0 {
+				// F79: the deprecated driver called directly, conflicted and unconflicted two parts of one list
+				dargs := [][]byte{[]byte(ver), in.universe, srCSV(dc), srCSV(du), srCSV(in.auth), []byte(strings.Join(in.rejected, ",")), nil, in.evjson}
+				dargs[6] = srFillTable(cs, "C10.resolve_v2_direct", dargs, 6)
+				c.Run("C10.resolve_v2_direct", dargs, "C10.resolve_v2_direct", "C10.prop.direct_kept", desc+" deprecated driver called directly")
+			}
 			c.Run("C10.authdiff_old", [][]byte{[]byte(ver), in.universe, srCSV(dc), srCSV(in.auth), in.evjson}, "C10.authdiff_old", "", desc)
 			// random sublists through both orderings
 			sub := srSubList(c.Rng, in.h.evs, i%3 == 0)
